@@ -30,7 +30,7 @@ OWN = {
             "query-leaves-window-unchanged", "query-leaves-manager-unchanged"},
     "C04": {"no-overspend-at-every-prefix", "result-equals-simulation"},
     "C10": {"indices-strictly-increasing-in-range", "utilities-one-per-candidate", "result-equals-simulation",
-            "returned-utilities-explain-the-decision",
+            "returned-utilities-explain-the-decision", "same-decisions-as-one-instance-at-a-time",
             "state-after-update-equals-per-instance-commit", "window-after-update",
             "manager-after-update-equals-per-instance-commit", "unmatched",
             "manager-commits-the-passing-candidates", "update-must-not-raise",
